@@ -43,6 +43,9 @@ type caseA struct {
 	// version the response announced (x-amz-version-id), that of a delete the delete marker; copies with an odd index
 	// name the version of their source explicitly
 	Versioned bool `json:"versioned,omitempty"`
+	// DropAt = n > 0: the receiver reads the n-th notification of the case and then closes the connection without an
+	// answer (a receiver that restarts): the gateway sees a failed delivery; every other notification is due as ever
+	DropAt int `json:"drop_at,omitempty"`
 }
 
 type record struct {
@@ -70,6 +73,8 @@ var (
 	// recvStatus: the status the receiver answers with (guarded by recvMu; set per case)
 	recvStatus int
 	recvReply  string
+	recvDropAt int // close the connection instead of answering the n-th notification from now (0 = never)
+	recvSeen   int
 )
 
 func receiver() string {
@@ -87,6 +92,22 @@ func receiver() string {
 			}
 			recvMu.Lock()
 			defer recvMu.Unlock()
+			recvSeen++
+			if recvDropAt > 0 && recvSeen == recvDropAt {
+				// received and recorded like any other; the sender gets no answer
+				lastAt = time.Now()
+				if err := json.Unmarshal(b, &doc); err != nil {
+					garbage = append(garbage, string(b))
+				} else {
+					received = append(received, doc.Records...)
+				}
+				if hj, ok := w.(http.Hijacker); ok {
+					if conn, _, err := hj.Hijack(); err == nil {
+						conn.Close()
+					}
+				}
+				return
+			}
 			if recvStatus != 0 {
 				w.WriteHeader(recvStatus)
 			}
@@ -147,6 +168,7 @@ func execA(c caseA) (st stats, err error) {
 	url := receiver()
 	recvMu.Lock()
 	recvStatus, recvReply = c.Status, c.Reply
+	recvDropAt, recvSeen = c.DropAt, 0
 	recvMu.Unlock()
 	sb, err := gw.NewSandbox("c19")
 	if err != nil {
@@ -518,6 +540,9 @@ func TestC19A(t *testing.T) {
 		}
 		c.Clients = rapid.SampledFrom([]int{1, 2, 4, 8, 16}).Draw(t, "clients")
 		c.Versioned = rapid.IntRange(0, 2).Draw(t, "versioned") == 0
+		if rapid.IntRange(0, 3).Draw(t, "drop") == 0 {
+			c.DropAt = rapid.IntRange(1, 6).Draw(t, "drop_at")
+		}
 		c.Status = rapid.SampledFrom([]int{0, 0, 200, 204, 202, 201}).Draw(t, "receiver_status")
 		c.Reply = rapid.SampledFrom([]string{"", "", "ok", "{\"status\":\"received\"}\n"}).Draw(t, "receiver_reply")
 		maxOps := 40
@@ -552,7 +577,10 @@ func TestC19A(t *testing.T) {
 		if c.Versioned {
 			cls = append(cls, "versioned-bucket")
 		}
-		ev.Case(fmt.Sprintf("%v|%d|%v|%+v", c.Filter, c.Clients, c.Versioned, c.Ops), st.Concurrent && st.Failed > 0, cls...)
+		if c.DropAt > 0 {
+			cls = append(cls, "receiver-drops-one-delivery")
+		}
+		ev.Case(fmt.Sprintf("%v|%d|%v|%d|%+v", c.Filter, c.Clients, c.Versioned, c.DropAt, c.Ops), st.Concurrent && st.Failed > 0, cls...)
 		ev.Sample(cls[0], 1, c)
 		if err != nil {
 			if strings.HasPrefix(err.Error(), "SETUP") {
